@@ -12,7 +12,7 @@ from harness.props import c02
 META = {
     "technique": "Coq proofs about a Gallina mirror of CouldWriteValue / TryToWrite / OffsetBitBlock::WriteUInt+MaskInValue / container store (C++ integer semantics explicit) + differential correspondence through generated code",
     "level_text": "Machine-checked theorems (Coq 8.16, no axioms): for every width 1..64 and every C++ integer argument type int8_t..uint64_t, UIntView/IntView/EnumView(unsigned)::CouldWriteValue returns true exactly for the representable values and no sub-expression is undefined; a successful TryToWrite of a UInt/Int/Bcd/unsigned-enum/Flag/Float field at any bit offset of any 1..8-byte container in either byte order stores bytes from which Read() returns the written value and leaves every other bit of the container (and, via splice, every other byte of the root buffer) unchanged; a failed TryToWrite writes nothing; TryToWrite <-> CouldWriteValue /\\ IsComplete, and IsComplete <-> the container's bytes are present; write inference's inverse of +/- chains is proved correct (invert_correct) and compared with the real pass on generated read transforms. Refuted by the faithful model (findings): signed enums (F1), NullByteOrderer on a short buffer, and BcdView's non-templated argument (narrowing). Tied to /repo on every run by generated modules compiled with the working tree's embossc and g++, comparing CouldWriteValue/TryToWrite/Read/buffer dump with the model (extracted OCaml for all cases, vm_compute for a sample) and with an independent arithmetic reference, for range edges +-1, C++ type limits and random values on 0x00/0xFF/random/truncated buffers.",
-    "level_note": "Trusted: Coq kernel + vm_compute; g++ 12 as the semantics of C++; harness/gen_bits.py, harness/cpp_build.py. Proved for the runtime as compiled by GCC/Clang (memcpy + bswap paths); the EMBOSS_NO_OPTIMIZATIONS configuration is proved to perform the same UInt/Int/enum/Float writes (portable_writes_agree); BcdView (MaxBcd, ConvertToBcd) is proved for arguments of the value type. Virtual-field write-through (write_inference + template) is compared on generated +/- chains and the inverse synthesised by write_inference is proved correct over unbounded integers (invert_correct); the C++ intermediate types of the generated transform are not modelled (finding virtual-write-unchecked-argument, F8). [requires] on physical and on writable virtual fields is checked every run against a SPEC-level oracle in Python (not the Coq model, which only has could_write_requires with an abstract validator).",
+    "level_note": "Trusted: Coq kernel + vm_compute; g++ 12 as the semantics of C++; harness/gen_bits.py, harness/cpp_build.py. Proved for the runtime as compiled by GCC/Clang (memcpy + bswap paths); the MemoryAccessor layer under container_store (every alignment specialisation, CharT, host endianness, builtin or portable byte swap; Bits/Accessor.v) is proved to replace exactly the kBits/8 bytes at the pointer by the container bytes (accessor_write_le_spec, accessor_write_be_spec, accessor_write_frame, aligned_writes_agree) and is compared with the real templates by a direct micro-driver every run; the EMBOSS_NO_OPTIMIZATIONS configuration is proved to perform the same UInt/Int/enum/Float writes (portable_writes_agree); BcdView (MaxBcd, ConvertToBcd) is proved for arguments of the value type. Virtual-field write-through (write_inference + template) is compared on generated +/- chains and the inverse synthesised by write_inference is proved correct over unbounded integers (invert_correct); the C++ intermediate types of the generated transform are not modelled (finding virtual-write-unchecked-argument, F8). [requires] on physical and on writable virtual fields is checked every run against a SPEC-level oracle in Python (not the Coq model, which only has could_write_requires with an abstract validator).",
 }
 
 
@@ -28,14 +28,15 @@ def run(ctx):
                  "< <= > >= != ==; values at and around every clause constant, their images through the transform, range edges +-1")
     ctx.rule += ("; every accessor of a 2/4/8-byte container, and a third of the others, is written a second time through views with "
                  "static alignment A in {2,4,8} placed at an address k mod A (same buffers and values)")
-    ctx.assumptions = ["aligned_writes_agree (observed, not proved): Write{Little,Big}EndianUInt of the alignment-specialised MemoryAccessor "
-                       "templates compute the same function as the unaligned ones (one store per byte order in the model)",
+    ctx.assumptions = ["the static (alignment, offset) claim of the root buffer holds and the back end's <kSubAlignment, kSubOffset> bound the "
+                       "field's run-time start (C05); under these aligned_writes_agree (Write{Little,Big}EndianUInt of every MemoryAccessor "
+                       "specialisation store the bytes of the model's container_store and nothing else) is now a theorem",
                        "[requires] is checked against the Python SPEC only (CouldWriteValue = representable && requires && backing field's "
                        "requires of the inverse image; TryToWrite = that && bytes present): the Coq model carries the validator as an "
                        "abstract predicate (could_write_requires) and does not model the generated expression code (C01)",
                        "Float: bit pattern only (the C++ driver builds the float by memcpy from the pattern)"]
     ctx.audit()
-    ctx.check_theorems("EmbossV.Bits.Properties_C03", "Bits/Properties_C03.v", expect_min=15)
+    ctx.check_theorems("EmbossV.Bits.Properties_C03", "Bits/Properties_C03.v", expect_min=23)
     c02.run_bits(ctx, "write", "C03")
     if not getattr(ctx, "replay_path", None):
         requires_writes(ctx)
